@@ -96,6 +96,11 @@ def interpIhdr (d : Dec) : Int × Int × Int × Int × Int × Int × Int × Bool
     else if code = 8 then .error (.format "UnknownFilterMethod")
     else .error (.format "UnknownInterlaceMethod")
 
+/-- `parse_ihdr` (stream.rs) = `Framing.parseIhdr`, for every chunk body and every state.  `kernel_combination_invalid` is a CONDITIONAL
+    rewrite rule here (`colorOk c`, `depthOk d`): `is_combination_invalid` is called after both `from_u8` decoders returned `Some`, so on the
+    path that reaches it `depth_isSome` / `color_isSome` (from `kernel_depth_from_u8` / `kernel_color_from_u8`) have put `depthOk ..` and
+    `colorOk ..` of the two header bytes among the hypotheses and `depth_getD` / `color_getD` have turned the two arguments into these bytes;
+    `simp` discharges the two side conditions from them.  Nothing is used about `is_combination_invalid` outside the 25 pairs of variants. -/
 theorem kernel_parse_ihdr (d : Dec) (w h bd ct : Int) (il : Bool) :
     parseIhdr d = interpIhdr d (Gen.parse_ihdr (bInt d.raw) d.info.isSome w h bd ct il) := by
   unfold parseIhdr Gen.parse_ihdr
